@@ -1,5 +1,7 @@
 import ApolloModel.Proofs.LineColumn
 import ApolloModel.Proofs.ParserLossless
+import ApolloModel.Proofs.TreeRanges2
+import ApolloModel.Model.TreeRanges
 /-
 C11 — Source locations and line/column positions are correct.
 
@@ -37,5 +39,133 @@ example : getLineColumn ['é', 'a', '\n', 'b'] 3 = some (1, 3) := by decide
 example : getLineColumn ['a', Char.ofNat 12, 'b', Char.ofNat 0x2028, 'c'] 6 = some (1, 5) := by decide
 example : getLineColumn ['a', '\r', '\n', 'b'] 3 = some (2, 1) := by decide
 example : getLineColumn ['a', '\r', 'b'] 2 = some (2, 1) := by decide
+
+/-! ## Locations from the syntax tree (the CST half of the location clause)
+
+`SourceSpan::new(file_id, syntax_node)` stores rowan's `text_range()` of a CST element: its offset is
+the sum of the UTF-8 lengths of all leaves before it, its length the sum over its own leaves
+(`Rowan.offsetAt`, `Rowan.Elem.len`; Proofs/TreeRanges.lean).  Byte ranges are applied to the
+`List Char` source by prefix sums of `Char.utf8Size` (`Rowan.sliceBytes`, `none` off a character
+boundary), as in Model/LineColumn.lean. -/
+section Tree
+open Apollo.Rowan Apollo.Parse
+
+/-- PURE TREE LEMMA: in any tree whose text is `src`, the range of the element at any path slices
+    `src` to exactly that element's text — in particular both ends are character boundaries. -/
+theorem token_range_exact (root : Elem) (src : Rowan.Str) (hsrc : root.text = src) (p : List Nat) (e : Elem)
+    (h : subAt root p = some e) : sliceBytes src (offsetAt root p) e.len = some e.text :=
+  range_exact root src hsrc p e h
+
+/-- EVERY ELEMENT OF THE PARSED DOCUMENT, for every input and recursion limit (no token limit, no
+    token dropped by ty.rs): its rowan range slices the SOURCE to exactly its text (tokens: the token
+    text) and lies inside the file `[0, |src|]`. -/
+theorem node_location_in_file (rl : Nat) (src : Parse.Str) (root : Elem)
+    (h : (parse .document none rl src).outcome = .tree root)
+    (hd : (parse .document none rl src).dropped = false) (p : List Nat) (e : Elem) (he : subAt root p = some e) :
+    sliceBytes src (offsetAt root p) e.len = some e.text ∧ offsetAt root p + e.len ≤ LC.byteLen src :=
+  document_ranges rl src root h hd p e he
+
+/-- nested ranges are contained in their ancestors' ranges … -/
+theorem ranges_nested (root : Elem) (p q : List Nat) (e d : Elem) (he : subAt root p = some e)
+    (hd : subAt e q = some d) :
+    offsetAt root p ≤ offsetAt root (p ++ q) ∧ offsetAt root (p ++ q) + d.len ≤ offsetAt root p + e.len :=
+  Rowan.ranges_nested root p q e d he hd
+
+/-- … and siblings are adjacent: a child starts where the previous one ends, the first where the parent starts -/
+theorem sibling_ranges_adjacent (k : SK) (cs : List Elem) (i : Nat) (c : Elem) (h : cs[i]? = some c) :
+    offsetAt (.node k cs) [i + 1] = offsetAt (.node k cs) [i] + c.len ∧ offsetAt (.node k cs) [0] = 0 :=
+  siblings_adjacent k cs i c h
+
+/-- WHAT `name()` BUILDS (name.rs on the model): entered on a Name token it appends, after flushing
+    the trivia queued before it (which therefore stay outside), exactly the node `NAME[IDENT(text)]`:
+    one IDENT token, no trivia — the ignored tokens that follow are queued again only after the node
+    was closed (`bump` = `eat` + `skip_ignored`, and `skip_ignored` never touches the builder). -/
+theorem name_node_is_one_ident (s : PState) (t : Tok) (hc : s.current = some t) (hk : t.kind = .name)
+    (u : Unit) (s' : PState) (hr : name.run s = .ok u s') :
+    s'.builder.children = s.builder.children ++ s.pending.map pendingElem ++ [Elem.node "NAME" [Elem.tok "IDENT" t.data]] ∧
+      s'.builder.parents = s.builder.parents :=
+  name_builds s t hc hk u s' hr
+
+/-- NAME LOCATION EXACT: a node of that shape anywhere in a tree whose text is the source has a range
+    that slices the source to exactly the name — `range.len() == name.len()`, the
+    `debug_assert_eq!` of `Name::with_location`, and the bytes are the name's. -/
+theorem name_location_exact (root : Elem) (src : Rowan.Str) (hsrc : root.text = src) (p : List Nat) (d : Rowan.Str)
+    (h : subAt root p = some (.node "NAME" [.tok "IDENT" d])) :
+    sliceBytes src (offsetAt root p) (LC.byteLen d) = some d := by
+  have := range_exact root src hsrc p _ h
+  simp only [Elem.len, Elem.text, textList, List.append_nil] at this
+  exact this
+
+/-- the same for the parsed document (no token limit, nothing dropped) -/
+theorem parsed_name_location_exact (rl : Nat) (src : Parse.Str) (root : Elem)
+    (h : (parse .document none rl src).outcome = .tree root)
+    (hd : (parse .document none rl src).dropped = false) (p : List Nat) (d : Rowan.Str)
+    (hn : subAt root p = some (.node "NAME" [.tok "IDENT" d])) :
+    sliceBytes src (offsetAt root p) (LC.byteLen d) = some d :=
+  name_location_exact root src (lossless_document rl src root h hd) p d hn
+
+/-- ALL NAME NODES AT ONCE, in the form the `c11.ranges` stream prints: `nameRanges root 0` lists
+    (start, length, text) of every NAME node of the tree — exactly the NAME nodes with their
+    `offsetAt` ranges (`name_ranges_listing`) — and for every parsed document (no token limit, nothing
+    dropped) each listed range slices the source to the listed text: every `ok` of the stream. -/
+theorem name_ranges_listing (root : Elem) (r : Nat × Nat × Rowan.Str) :
+    r ∈ nameRanges root 0 ↔
+      ∃ p cs, subAt root p = some (.node "NAME" cs) ∧ r = (offsetAt root p, LC.byteLen (textList cs), textList cs) := by
+  constructor
+  · intro h
+    obtain ⟨p, cs, hs, hr⟩ := nameRanges_sound root 0 r h
+    exact ⟨p, cs, hs, by simp only [Nat.zero_add] at hr; exact hr⟩
+  · rintro ⟨p, cs, hs, hr⟩
+    have := nameRanges_complete p root 0 cs hs
+    rw [hr]; simp only [Nat.zero_add] at this; exact this
+
+theorem parsed_name_ranges_exact (rl : Nat) (src : Parse.Str) (root : Elem)
+    (h : (parse .document none rl src).outcome = .tree root)
+    (hd : (parse .document none rl src).dropped = false) (r : Nat × Nat × Rowan.Str) (hr : r ∈ nameRanges root 0) :
+    sliceBytes src r.1 r.2.1 = some r.2.2 := by
+  obtain ⟨p, cs, hs, rfl⟩ := (name_ranges_listing root r).mp hr
+  have := (document_ranges rl src root h hd p _ hs).1
+  simp only [Elem.len, Elem.text] at this
+  exact this
+
+/-- Stated, not proved: EVERY NAME node of every parsed tree has that shape (it follows from
+    `name_node_is_one_ident` for the nodes built by `name()`; the other site, ty.rs
+    `NAMED_TYPE[NAME[eat IDENT]]`, builds the same shape).  Checked on every case of the parser
+    correspondence (same S-expression as the real CST) and by the `c11.ranges` stream. -/
+def all_name_nodes_are_one_ident : Prop :=
+  ∀ (e : Entry) (tl : Option Nat) (rl : Nat) (src : Parse.Str) (root : Elem),
+    (parse e tl rl src).outcome = .tree root → namesAreIdents root = true
+
+/-- `type A{a:[!]b:B}` -/
+def droppedWitness : Parse.Str := ['t','y','p','e',' ','A','{','a',':','[','!',']','b',':','B','}']
+
+/-- KNOWN FINDING `ast-location-after-dropped-token`, on the model: when ty.rs drops a token (`!` in
+    type position), the tree text is shorter than the source, and the range of a LATER name no longer
+    slices the source to its text — the NAME `b` at path [0,3,2,0] has range (11, 1), and bytes
+    11..12 of the source are `]`.  So the hypothesis `dropped = false` of `parsed_name_location_exact`
+    cannot be removed. -/
+theorem C11_counterexample_dropped :
+    (parse .document none 500 droppedWitness).dropped = true ∧
+    ∃ root, (parse .document none 500 droppedWitness).outcome = .tree root ∧
+        subAt root [0, 3, 2, 0] = some (.node "NAME" [.tok "IDENT" ['b']]) ∧
+        offsetAt root [0, 3, 2, 0] = 11 ∧
+        sliceBytes droppedWitness 11 (LC.byteLen ['b']) = some [']'] := by
+  refine ⟨by decide +kernel, rootOf (parse .document none 500 droppedWitness), ?_, ?_, ?_, ?_⟩
+  · exact rootOf_tree _ (by decide +kernel)
+  · exact isNameOf_sound _ _ (by decide +kernel)
+  · decide +kernel
+  · decide +kernel
+
+/-- `#é⏎{a}`: two-byte character in a comment before a name -/
+def multibyteWitness : Parse.Str := ['#','é','\n','{','a','}']
+
+-- Non-vacuity: multi-byte text before a name — nothing dropped, the range (5, 1) is in BYTES (the
+-- name is the 5th character, index 4) and slices the source to the name
+example : (parse .document none 500 multibyteWitness).dropped = false ∧
+    (nameRanges (rootOf (parse .document none 500 multibyteWitness)) 0).map
+      (fun r => (r.1, r.2.1, sliceBytes multibyteWitness r.1 r.2.1 == some r.2.2)) = [(5, 1, true)] := by
+  decide +kernel
+
+end Tree
 
 end Apollo.C11
